@@ -17,14 +17,23 @@
     tick `≤ max 4 (t₀ + 1)` (`pantr_init_ticks_after_stop`), an iteration that starts at tick `t`
     ends at tick `≤ max (t + 15) (t₀ + 6)` (`pantr_iteration_ticks_after_stop`) and the whole solve
     at tick `≤ t₀ + 17` (`pantr_ticks_after_stop`: the `≤ 14` non-backtracking events of the
-    iteration in flight, the next head `≤ 2`, the final callback) — independent of the number of
-    step-size halvings the quadratic upper bound would still ask for;
+    iteration in flight, the next head `≤ 2`, the final callback; `pantr_ticks_after_stop_max`:
+    `≤ max 7 (t₀ + 17)`) — independent of the number of step-size halvings the quadratic upper bound
+    would still ask for; over an ordered field (exclusive comparisons, `!=` the negation of `=`) the
+    sharp bound is `max 7 (t₀ + 13)` (`pantr_ticks_after_stop_tight`), attained by a closed run;
   * without a request, one iteration is at most `15 + 2·b` events (problem evaluations by the
     solver, direction calls, one callback), `b` = step-size halvings in it (`pantr_iteration_events`),
     the exit adds at most 3 (`pantr_events_after_visible_stop`), and over an ordered field each
     `backtrack_qub` loop makes `n` passes only if `L·2ⁿ⁻¹ < L_max` (`backtrack_passes_bounded`).
-  * `Interrupted` only if the flag was visible at the last head; otherwise the natural status
-    (`pantr_interrupted_or_natural`).
+  * `pantr_interrupted_or_natural`: if the flag (never lowered) is visible from tick `t₀` and the solve
+    made more than `t₀` events, the returned status is `Interrupted` or the natural status whose chain
+    condition held at the last head (`Converged ∧ ε ≤ tol'`, `MaxTime ∧` limit reached,
+    `MaxIter ∧ iterations = max_iter`, `NotFinite ∧ ε` not finite; `NoProgress` is impossible for
+    PANTR).  Conversely `Interrupted` only if the flag was visible at the last head
+    (`pantr_not_interrupted_without_stop`, `Props/C06_Pantr.pantr_interrupted_only_if`).
+  * no theorem of this file carries a fuel hypothesis: the main loop's fuel `max_iter + 1` suffices
+    unconditionally (pantr.tpp has no retry loop inside an iteration and never `continue`s), and the
+    statements about `backtrack_qub` hold whether or not its model fuel runs out.
   * outputs after an interrupted solve satisfy the same contract as any exit:
     `Props/C03_Pantr.pantr_exit_contract` quantifies over all stop schedules.
 
@@ -32,6 +41,7 @@
 -/
 import Alpaqa.Proofs.PantrOrd
 import Alpaqa.Proofs.PantrExample
+import Alpaqa.Proofs.PantrExampleQ
 import Alpaqa.Props.C06
 import Alpaqa.Props.C06_Pantr
 
@@ -278,10 +288,85 @@ theorem pantr_ticks_after_stop (co : Consts α) (P : Problem α) (dir : Directio
       (pr.maxIter + 1) s
     omega
 
-/-- `Interrupted` is reported only if the flag was visible at the last head check; a solve whose
-    flag is never visible ends with its natural status. -/
+/-- The same in the `max` form (a request that lands very early does not make the bound smaller than
+    the undisturbed start of a solve): the solve ends at tick `≤ max 7 (t₀ + 17)`; `7` = initialisation
+    `≤ 4` (Lipschitz estimate `≤ 2`, first prox step, `ψ(x̂)`) + first head `≤ 2` + final callback. -/
+theorem pantr_ticks_after_stop_max (co : Consts α) (P : Problem α) (dir : Direction D α) (d0 : D)
+    (pr : Params α) (stop : Nat → Bool) (hm : MonotoneStop stop) (t0 : Nat) (h0 : stop t0 = true)
+    (oot : Bool) (x0 y Sig errz0 gV : Vec α) :
+    (run co P dir d0 pr stop oot x0 y Sig errz0 gV).ticks ≤ max 7 (t0 + 17) := by
+  unfold run
+  cases hi : initState co P d0 pr stop x0 gV with
+  | inl t =>
+    simp only []
+    have hc : (lipschitzStage co P pr x0 gV).2.2 ≤ 2 := by
+      unfold lipschitzStage; simp only []; split_ifs <;> simp
+    unfold initState at hi
+    simp only [] at hi
+    split_ifs at hi
+    injection hi with hi
+    omega
+  | inr s =>
+    simp only []
+    have h1 := pantr_init_ticks_after_stop co P d0 pr stop hm t0 h0 x0 gV s hi
+    have h2 := pantr_mainLoop_ticks_after_stop co P dir pr stop hm t0 h0 oot x0 y Sig errz0
+      (pr.maxIter + 1) s
+    omega
+
+/-- With the stop flag visible, the generated chain returns `Interrupted` unless one of the
+    higher-priority conditions holds — and then exactly that condition's status (pure decision logic
+    of `check_all_stop_conditions`, any carrier). -/
+theorem chain_with_stop (tol : α) (maxIter maxNP k : Nat) (ε : α) (np : Nat) (oot : Bool) :
+    statusChain tol maxIter maxNP k ε np oot true = .Interrupted ∨
+    (statusChain tol maxIter maxNP k ε np oot true = .Converged ∧ ε ≤ C06.effTol tol) ∨
+    (statusChain tol maxIter maxNP k ε np oot true = .MaxTime ∧ oot = true) ∨
+    (statusChain tol maxIter maxNP k ε np oot true = .MaxIter ∧ k = maxIter) ∨
+    (statusChain tol maxIter maxNP k ε np oot true = .NotFinite ∧ RealLike.isFinite ε = false) ∨
+    (statusChain tol maxIter maxNP k ε np oot true = .NoProgress ∧ np > maxNP) := by
+  unfold statusChain C06.effTol
+  simp only []
+  split_ifs <;> simp_all
+
+/-- **Final status is `Interrupted` unless a higher-priority chain condition holds at that head.**
+    If the flag, never lowered, is visible from tick `t₀` on and the solve made more than `t₀` events in
+    all (`t₀ + 1 ≤ ticks`: the last head polls the flag at tick `ticks − 1`, the exit block adds the
+    final callback; in particular whenever `t₀ + 2 ≤ ticks`) — i.e. it did not finish before the
+    request could be seen — the returned status is `Interrupted`, or it is the natural status whose
+    condition held at that last head: `Converged ∧ ε ≤ tol'`, `MaxTime ∧` time limit reached,
+    `MaxIter ∧ iterations = max_iter`, `NotFinite ∧ ε` not finite.  (`NoProgress` is impossible for
+    PANTR: its counter is the constant 0.)  Every problem, provider, budget; no fuel hypothesis. -/
 theorem pantr_interrupted_or_natural (co : Consts α) (P : Problem α) (dir : Direction D α) (d0 : D)
-    (pr : Params α) (stop : Nat → Bool) (oot : Bool) (x0 y Sig errz0 gV : Vec α) (s : St α D)
+    (pr : Params α) (stop : Nat → Bool) (hm : MonotoneStop stop) (t0 : Nat) (h0 : stop t0 = true)
+    (oot : Bool) (x0 y Sig errz0 gV : Vec α) (s : St α D)
+    (hi : initState co P d0 pr stop x0 gV = .inr s)
+    (hlate : t0 + 1 ≤ (run co P dir d0 pr stop oot x0 y Sig errz0 gV).ticks) :
+    (run co P dir d0 pr stop oot x0 y Sig errz0 gV).stats.status = .Interrupted ∨
+    ((run co P dir d0 pr stop oot x0 y Sig errz0 gV).stats.status = .Converged ∧
+      (run co P dir d0 pr stop oot x0 y Sig errz0 gV).stats.eps ≤ C06.effTol pr.tolerance) ∨
+    ((run co P dir d0 pr stop oot x0 y Sig errz0 gV).stats.status = .MaxTime ∧ oot = true) ∨
+    ((run co P dir d0 pr stop oot x0 y Sig errz0 gV).stats.status = .MaxIter ∧
+      (run co P dir d0 pr stop oot x0 y Sig errz0 gV).stats.iterations = pr.maxIter) ∨
+    ((run co P dir d0 pr stop oot x0 y Sig errz0 gV).stats.status = .NotFinite ∧
+      RealLike.isFinite (run co P dir d0 pr stop oot x0 y Sig errz0 gV).stats.eps = false) := by
+  have hc := C06_Pantr.pantr_status_is_chain co P dir d0 pr stop oot x0 y Sig errz0 gV s hi
+  have hstop : stop ((run co P dir d0 pr stop oot x0 y Sig errz0 gV).ticks - 1) = true :=
+    hm t0 _ (by omega) h0
+  rw [hstop] at hc
+  rw [hc]
+  rcases chain_with_stop pr.tolerance pr.maxIter pr.maxNoProgress
+    (run co P dir d0 pr stop oot x0 y Sig errz0 gV).stats.iterations
+    (run co P dir d0 pr stop oot x0 y Sig errz0 gV).stats.eps 0 oot with h | h | h | h | h | h
+  · exact .inl h
+  · exact .inr (.inl h)
+  · exact .inr (.inr (.inl h))
+  · exact .inr (.inr (.inr (.inl h)))
+  · exact .inr (.inr (.inr (.inr h)))
+  · exact absurd h.2 (by omega)
+
+/-- The converse direction: `Interrupted` is reported only if the flag was visible at the last head
+    check; a solve whose flag is never visible ends with its natural status. -/
+theorem pantr_not_interrupted_without_stop (co : Consts α) (P : Problem α) (dir : Direction D α)
+    (d0 : D) (pr : Params α) (stop : Nat → Bool) (oot : Bool) (x0 y Sig errz0 gV : Vec α) (s : St α D)
     (hi : initState co P d0 pr stop x0 gV = .inr s) (hnever : ∀ t, stop t = false) :
     (run co P dir d0 pr stop oot x0 y Sig errz0 gV).stats.status ≠ .Interrupted := by
   intro h
@@ -319,6 +404,262 @@ theorem backtrack_passes_le (P : Problem α) (pr : Params α)
   have : c.L * 2 ^ N ≤ c.L * 2 ^ (n - 1) := mul_le_mul_of_nonneg_left hpow hL.le
   linarith
 
+/-! ### The sharp event bound after `stop()` (ordered field)
+
+Over an ordered field the comparisons are exclusive (`q_model ≥ 0` and `q_model < 0` cannot both
+hold) and `!=` is the negation of equality (no NaN step size), and then the bound `t₀ + 17` of
+`pantr_ticks_after_stop` (any carrier) sharpens to `t₀ + 13`, which is attained.  Where the four
+events go: (1) `direction.reset()` after a failed trust-region step and `compute_candidate_fbe`
+exclude each other; (2), (3) `direction.changed_γ` and the recomputed prox step need a step-size
+change, hence a `backtrack_qub` pass, hence a poll that did not see the flag; (4) `∇ψ(x̂ₖ)` is evaluated
+either by the head (criteria that read it) or by `compute_FBS_step`, never by both. -/
+
+/-- events of `compute_FBS_step` -/
+def fbsTicks (pr : Params α) : Nat := if requiresGradHat pr.stopCrit then 2 else 3
+
+/-- events of a loop head (`∇ψ(x̂ₖ)` if the criterion reads it, the unit-step prox of some criteria) -/
+def headTicks (pr : Params α) : Nat :=
+  (if requiresGradHat pr.stopCrit then 1 else 0) + epsTicks pr.stopCrit
+
+theorem fbs_head_le (pr : Params α) : fbsTicks pr + headTicks pr ≤ 4 ∧ headTicks pr ≤ 2 := by
+  unfold fbsTicks headTicks
+  cases pr.stopCrit <;> simp [requiresGradHat, epsTicks]
+
+theorem fbsStep_tick_eq (P : Problem α) (pr : Params α) (s : St α D) :
+    (fbsStep P pr s).2.2 = s.tick + fbsTicks pr := by
+  unfold fbsStep fbsTicks; simp only []; split_ifs <;> rfl
+
+theorem headStep_tick_eq (P : Problem α) (pr : Params α) (stop : Nat → Bool) (oot : Bool) (s : St α D) :
+    (headStep P pr stop oot s).1.tick = s.tick + headTicks pr := by
+  unfold headStep headTicks; simp only []; split_ifs <;> first | rfl | omega
+
+/-- With a flag that is never lowered and visible from tick `t₀` on, `backtrack_qub` either does
+    nothing (same iterate, same tick) or was entered before `t₀` and is left at tick `≤ t₀ + 1`. -/
+theorem backtrackQub_stop_cases (P : Problem α) (pr : Params α) (stop : Nat → Bool)
+    (hm : MonotoneStop stop) (t0 : Nat) (h0 : stop t0 = true) (f : Nat) (c : Iterate α) (t b : Nat) :
+    ((backtrackQub P pr stop f c t b).1 = c ∧ (backtrackQub P pr stop f c t b).2.1 = t) ∨
+    (t < t0 ∧ (backtrackQub P pr stop f c t b).2.1 ≤ t0 + 1) := by
+  cases f with
+  | zero => exact .inl ⟨rfl, rfl⟩
+  | succ f =>
+    unfold backtrackQub
+    split_ifs with hst hc
+    · exact .inl ⟨rfl, rfl⟩
+    · have hlt : t < t0 := by
+        apply Nat.lt_of_not_le
+        intro hc
+        exact hst (hm t0 t hc h0)
+      have := backtrackQub_tick_bound P pr stop hm t0 h0 f (backtrackStep P c) (t + 2) (b + 1)
+      exact .inr ⟨hlt, by omega⟩
+    · exact .inl ⟨rfl, rfl⟩
+
+/-- A trust-region step whose model value is negative made one event (`direction.apply`): the
+    `direction.reset()` branches return a non-negative value (`+inf`, or `q_model ≥ 0` itself). -/
+theorem trustRegionStep_neg_tick (co : Consts α) (hinf : ¬ co.inf < 0) (dir : Direction D α) (d : D)
+    (t : Nat) (prox : Iterate α) (Delta : α) (q : Vec α)
+    (hq : (trustRegionStep co dir d t prox Delta q).2.2.2.1 < 0) :
+    (trustRegionStep co dir d t prox Delta q).2.1 = t + 1 := by
+  unfold trustRegionStep at hq ⊢
+  simp only [] at hq ⊢
+  split_ifs at hq ⊢ with h1 h2
+  · exact absurd hq hinf
+  · exact absurd hq (not_lt.mpr h2)
+  · rfl
+
+theorem candidateFbe_tick_tight (P : Problem α) (pr : Params α) (stop : Nat → Bool)
+    (hm : MonotoneStop stop) (t0 : Nat) (h0 : stop t0 = true) (prox cand : Iterate α) (q : Vec α)
+    (t : Nat) :
+    ((candidateFbe P pr stop prox cand q t).2.1 ≤ t + 3 ∧
+      (candidateFbe P pr stop prox cand q t).1.gamma = prox.gamma) ∨
+    (candidateFbe P pr stop prox cand q t).2.1 ≤ t0 + 1 := by
+  unfold candidateFbe
+  simp only []
+  split_ifs
+  · rcases backtrackQub_stop_cases P pr stop hm t0 h0 pr.qubFuel
+      (evalPsiHat P (evalProxGradStep P
+        { (evalPsiGradPsi P { cand with x := vadd prox.x q }) with gamma := prox.gamma, L := prox.L }))
+      (t + 3) 0 with h | h
+    · refine .inl ⟨by rw [h.2], ?_⟩
+      rw [h.1]; simp [evalPsiHat, evalProxGradStep]
+    · exact .inr h.2
+  · exact .inl ⟨by dsimp only; omega, by simp [evalProxGradStep]⟩
+
+/-- `trStage` once a request is pending: at most `fbsTicks + 6` events (FBS step, `initialize` and
+    `has_initial_direction` at `k = 0`, `apply`, the candidate's three evaluations) with the
+    candidate's step size unchanged — or it ended inside the candidate's `backtrack_qub` at tick
+    `≤ t₀ + 1`. -/
+theorem trStage_tick_tight (co : Consts α) (hinf : ¬ co.inf < 0) (P : Problem α) (dir : Direction D α)
+    (pr : Params α) (stop : Nat → Bool) (hm : MonotoneStop stop) (t0 : Nat) (h0 : stop t0 = true)
+    (s : St α D) :
+    ((trStage co P dir pr stop s).tick ≤ s.tick + fbsTicks pr + 6 ∧
+      ((trStage co P dir pr stop s).accept = true →
+        (trStage co P dir pr stop s).cand.gamma = (trStage co P dir pr stop s).prox.gamma)) ∨
+    (trStage co P dir pr stop s).tick ≤ t0 + 1 := by
+  have h1 := fbsStep_tick_eq P pr s
+  have h2 := dirInit_tick dir s (fbsStep P pr s).1 (fbsStep P pr s).2.2
+  unfold trStage
+  simp only []
+  split_ifs
+  · unfold trAttempt
+    simp only []
+    generalize htr : trustRegionStep co dir _ _ _ _ _ = tr
+    have h3 := trustRegionStep_tick co dir (dirInit dir s (fbsStep P pr s).1 (fbsStep P pr s).2.2).1
+      (dirInit dir s (fbsStep P pr s).1 (fbsStep P pr s).2.2).2.2 (fbsStep P pr s).1 s.Delta s.q
+    have h3' := trustRegionStep_neg_tick co hinf dir (dirInit dir s (fbsStep P pr s).1 (fbsStep P pr s).2.2).1
+      (dirInit dir s (fbsStep P pr s).1 (fbsStep P pr s).2.2).2.2 (fbsStep P pr s).1 s.Delta s.q
+    rw [htr] at h3 h3'
+    split_ifs with hq
+    · have h4 := h3' hq
+      rcases candidateFbe_tick_tight P pr stop hm t0 h0 (fbsStep P pr s).1 s.cand tr.2.2.1 tr.2.1
+        with h5 | h5
+      · refine .inl ⟨?_, fun _ => h5.2⟩
+        simp only []
+        omega
+      · exact .inr h5
+    · refine .inl ⟨?_, fun h => absurd h (by simp)⟩
+      simp only []
+      omega
+  · refine .inl ⟨?_, fun h => absurd h (by simp)⟩
+    simp only []
+    omega
+
+/-- The accept stage for a candidate whose step size equals `prox`'s: two events (`ψ(x̂)` when the
+    ratio was computed with the old step size, `direction.update`) — or its `backtrack_qub` was
+    entered before `t₀` and the stage ends at tick `≤ t₀ + 4`. -/
+theorem acceptStage_tick_tight (P : Problem α) (dir : Direction D α) (pr : Params α)
+    (stop : Nat → Bool) (hm : MonotoneStop stop) (t0 : Nat) (h0 : stop t0 = true) (m : Mid α D)
+    (t : Nat) (hγ : m.cand.gamma = m.prox.gamma) :
+    (acceptStage P dir pr stop m t).tick ≤ t + 2 ∨ (acceptStage P dir pr stop m t).tick ≤ t0 + 4 := by
+  unfold acceptStage
+  simp only []
+  by_cases hc : pr.computeRatioUsingNewStepsize
+  · simp only [hc, Bool.not_true, Bool.false_eq_true, if_false]
+    left
+    have : (m.prox.gamma != m.cand.gamma) = false := by simp [hγ]
+    simp only [this, Bool.false_eq_true, if_false]
+    omega
+  · simp only [hc, Bool.not_false, if_true]
+    rcases backtrackQub_stop_cases P pr stop hm t0 h0 pr.qubFuel (evalPsiHat P m.cand) (t + 1) 0
+      with h | h
+    · left
+      have : (m.prox.gamma != (backtrackQub P pr stop pr.qubFuel (evalPsiHat P m.cand) (t + 1) 0).1.gamma)
+          = false := by rw [h.1]; simp [evalPsiHat, hγ]
+      simp only [this, Bool.false_eq_true, if_false]
+      omega
+    · right
+      split_ifs <;> dsimp only <;> omega
+
+/-- The reject stage (`prox` carries the current step size): two events (`ψ(x̂)`, `direction.update`
+    if `update_direction_on_prox_step`) — or its `backtrack_qub` was entered before `t₀`: `≤ t₀ + 4`. -/
+theorem rejectStage_tick_tight (P : Problem α) (dir : Direction D α) (pr : Params α)
+    (stop : Nat → Bool) (hm : MonotoneStop stop) (t0 : Nat) (h0 : stop t0 = true) (m : Mid α D)
+    (t : Nat) (hγ : m.prox.gamma = m.curr.gamma) :
+    (rejectStage P dir pr stop m t).tick ≤ t + 2 ∨ (rejectStage P dir pr stop m t).tick ≤ t0 + 4 := by
+  unfold rejectStage
+  simp only []
+  rcases backtrackQub_stop_cases P pr stop hm t0 h0 pr.qubFuel (evalPsiHat P m.prox) (t + 1) 0
+    with h | h
+  · left
+    have : ((backtrackQub P pr stop pr.qubFuel (evalPsiHat P m.prox) (t + 1) 0).1.gamma != m.curr.gamma)
+        = false := by rw [h.1]; simp [evalPsiHat, hγ]
+    simp only [this, Bool.false_eq_true, if_false]
+    split_ifs <;> dsimp only <;> omega
+  · right
+    split_ifs <;> dsimp only <;> omega
+
+/-- **One iteration once a request is pending, sharp**: it ends at tick
+    `≤ max (t + fbsTicks + 9) (t₀ + 6)`. -/
+theorem pantr_iteration_ticks_tight (co : Consts α) (hinf : ¬ co.inf < 0) (P : Problem α)
+    (dir : Direction D α) (pr : Params α) (stop : Nat → Bool) (hm : MonotoneStop stop) (t0 : Nat)
+    (h0 : stop t0 = true) (s : St α D) (eps : α) :
+    (iterBody co P dir pr stop s eps).tick ≤ max (s.tick + fbsTicks pr + 9) (t0 + 6) := by
+  have hpg : (trStage co P dir pr stop s).prox.gamma = (trStage co P dir pr stop s).curr.gamma := by
+    rw [trStage_prox, (trStage_spec co P dir pr stop s).1]
+    simp [fbsStep, evalProxGradStep, evalPsiGradPsi]
+  have h2 := acceptStage_tick_stop P dir pr stop hm t0 h0 (trStage co P dir pr stop s)
+    ((trStage co P dir pr stop s).tick + 1)
+  have h3 := rejectStage_tick_stop P dir pr stop hm t0 h0 (trStage co P dir pr stop s)
+    ((trStage co P dir pr stop s).tick + 1)
+  have h3' := rejectStage_tick_tight P dir pr stop hm t0 h0 (trStage co P dir pr stop s)
+    ((trStage co P dir pr stop s).tick + 1) hpg
+  rcases trStage_tick_tight co hinf P dir pr stop hm t0 h0 s with h1 | h1
+  · unfold iterBody
+    simp only []
+    by_cases ha : (trStage co P dir pr stop s).accept = true
+    · have h2' := acceptStage_tick_tight P dir pr stop hm t0 h0 (trStage co P dir pr stop s)
+        ((trStage co P dir pr stop s).tick + 1) (h1.2 ha)
+      simp only [ha, if_true]
+      omega
+    · simp only [ha, Bool.false_eq_true, if_false]
+      omega
+  · unfold iterBody
+    simp only []
+    split_ifs <;> omega
+
+/-- Sharp tick bound for the main loop: a solve at a loop head at tick `s.tick` ends at tick
+    `≤ max (s.tick + headTicks + 1) (t₀ + 13)`. -/
+theorem pantr_mainLoop_ticks_tight (co : Consts α) (hinf : ¬ co.inf < 0) (P : Problem α)
+    (dir : Direction D α) (pr : Params α) (stop : Nat → Bool) (hm : MonotoneStop stop) (t0 : Nat)
+    (h0 : stop t0 = true) (oot : Bool) (x0 y Sig errz0 : Vec α) (fuel : Nat) (s : St α D) :
+    (mainLoop co P dir pr stop oot x0 y Sig errz0 fuel s).ticks
+      ≤ max (s.tick + headTicks pr + 1) (t0 + 13) := by
+  have hfh := fbs_head_le pr
+  induction fuel generalizing s with
+  | zero =>
+    simp only [mainLoop]
+    rw [(exitBlock_fields co pr s s.stats.eps .Exception x0 y Sig errz0).2.2.2.2.2.1]
+    omega
+  | succ f ih =>
+    have hh := headStep_tick_eq P pr stop oot s
+    by_cases hst : stop (headStep P pr stop oot s).1.tick = true
+    · have he := (pantr_stop_at_head_exits co P dir pr stop oot x0 y Sig errz0 f s hst).2.1
+      rw [he, (exitBlock_fields co pr _ _ _ x0 y Sig errz0).2.2.2.2.2.1]
+      omega
+    · have hlt : (headStep P pr stop oot s).1.tick < t0 := by
+        apply Nat.lt_of_not_le
+        intro hc
+        exact hst (hm t0 _ hc h0)
+      unfold mainLoop
+      simp only []
+      split_ifs with hb
+      · rw [(exitBlock_fields co pr _ _ _ x0 y Sig errz0).2.2.2.2.2.1]
+        omega
+      · have hb' := pantr_iteration_ticks_tight co hinf P dir pr stop hm t0 h0
+          (headStep P pr stop oot s).1 (headStep P pr stop oot s).2.1
+        have := ih (iterBody co P dir pr stop (headStep P pr stop oot s).1 (headStep P pr stop oot s).2.1)
+        omega
+
+/-- **The sharp bound: a solve ends at most 13 events after the request** (`≤ max 7 (t₀ + 13)`), for a
+    flag that is never lowered and visible from tick `t₀` on, over an ordered field, with `inf ≥ 0`.
+    The 13 (attained, see the example at the end of this file): a request that becomes visible right
+    after the head poll of iteration `k = 0` is followed by `compute_FBS_step` (3 events for a criterion
+    that does not read `∇ψ(x̂)`), `direction.initialize`, `has_initial_direction`, `direction.apply`, the
+    candidate's `ψ, ∇ψ`, prox step and `ψ(x̂)` (`compute_ratio_using_new_stepsize`), the progress callback,
+    `ψ(x̂)` of the fallback step, `direction.update`, the unit-step prox of the next head's criterion
+    and the final callback; `11` for an iteration `k ≥ 1`. -/
+theorem pantr_ticks_after_stop_tight (co : Consts α) (hinf : ¬ co.inf < 0) (P : Problem α)
+    (dir : Direction D α) (d0 : D) (pr : Params α) (stop : Nat → Bool) (hm : MonotoneStop stop)
+    (t0 : Nat) (h0 : stop t0 = true) (oot : Bool) (x0 y Sig errz0 gV : Vec α) :
+    (run co P dir d0 pr stop oot x0 y Sig errz0 gV).ticks ≤ max 7 (t0 + 13) := by
+  have hfh := fbs_head_le pr
+  unfold run
+  cases hi : initState co P d0 pr stop x0 gV with
+  | inl t =>
+    simp only []
+    have hc : (lipschitzStage co P pr x0 gV).2.2 ≤ 2 := by
+      unfold lipschitzStage; simp only []; split_ifs <;> simp
+    unfold initState at hi
+    simp only [] at hi
+    split_ifs at hi
+    injection hi with hi
+    omega
+  | inr s =>
+    simp only []
+    have h1 := pantr_init_ticks_after_stop co P d0 pr stop hm t0 h0 x0 gV s hi
+    have h2 := pantr_mainLoop_ticks_tight co hinf P dir pr stop hm t0 h0 oot x0 y Sig errz0
+      (pr.maxIter + 1) s
+    omega
+
 end ordered
 
 /-! ### Non-vacuity -/
@@ -346,6 +687,72 @@ example :
     (r 4).stats.stepsizeBacktracks = 1 ∧ (r 4).ticks = 6 ∧ (r 4).stats.status = .Interrupted ∧
     (r 4).stats.iterations = 0 ∧ (r 4).fuelOut = false := by decide
 
+/-- `pantr_interrupted_or_natural` on that run (`t₀ = 9`, 14 events in all): the head after iteration 0
+    sees the flag *and* a satisfied tolerance — `Converged` wins; with `t₀ = 3` (4 events):
+    `Interrupted` -/
+example : (solve 3 false 1 9).stats.status = .Converged ∧ 9 + 1 ≤ (solve 3 false 1 9).ticks ∧
+    (solve 3 false 1 3).stats.status = .Interrupted ∧ 3 + 1 ≤ (solve 3 false 1 3).ticks := by decide
+example : (solve 3 false 1 9).stats.status = .Interrupted ∨
+    ((solve 3 false 1 9).stats.status = .Converged ∧
+      (solve 3 false 1 9).stats.eps ≤ C06.effTol (pr 3 false).tolerance) ∨
+    ((solve 3 false 1 9).stats.status = .MaxTime ∧ false = true) ∨
+    ((solve 3 false 1 9).stats.status = .MaxIter ∧ (solve 3 false 1 9).stats.iterations = (pr 3 false).maxIter) ∨
+    ((solve 3 false 1 9).stats.status = .NotFinite ∧ RealLike.isFinite (solve 3 false 1 9).stats.eps = false) :=
+  pantr_interrupted_or_natural co P (dir 1) () (pr 3 false) _
+    (by intro a b hab h; simp at h ⊢; omega) 9 (by decide) false [5] [] [] [] [0] _ rfl (by decide)
+/-- no request at all: not `Interrupted` -/
+example : (solve 3 false 1 0).stats.status ≠ .Interrupted :=
+  pantr_not_interrupted_without_stop co P (dir 1) () (pr 3 false) _ false [5] [] [] [] [0] _ rfl
+    (fun _ => rfl)
+/-- the tick bounds on that run: 14 events `≤ 9 + 17` -/
+example : (solve 3 false 1 9).ticks ≤ max 7 (9 + 17) :=
+  pantr_ticks_after_stop_max co P (dir 1) () (pr 3 false) _
+    (by intro a b hab h; simp at h ⊢; omega) 9 (by decide) false [5] [] [] [] [0]
+
 end examples
+
+/-! ### Non-vacuity over `ℚ` (`Proofs/PantrExampleQ.lean`): a natural status after the request -/
+section examplesQ
+open Alpaqa.Pantr.ExampleQ
+
+example (k : Nat) : MonotoneStop (stopAt (some k)) := by
+  intro a b hab h; simp only [stopAt, decide_eq_true_eq] at h ⊢; omega
+
+/-- request visible from tick 17 — inside the second (last) iteration of a solve with `max_iter = 2`: the
+    iteration completes, the next head sees both `k = max_iter` and the flag; `MaxIter` has priority
+    (`26` events in all, `17 + 1 ≤ 26`); visible from tick 6 — inside the first iteration —:
+    `Interrupted` after one iteration, 17 events `≤ 6 + 17`. -/
+example : (rq (some 17)).stats.status = .MaxIter ∧ (rq (some 17)).stats.iterations = 2 ∧
+    (rq (some 17)).ticks = 26 ∧ (rq (some 6)).stats.status = .Interrupted ∧
+    (rq (some 6)).stats.iterations = 1 ∧ (rq (some 6)).ticks = 17 := by decide +kernel
+example : (rq (some 17)).stats.status = .Interrupted ∨
+    ((rq (some 17)).stats.status = .Converged ∧ (rq (some 17)).stats.eps ≤ C06.effTol prq.tolerance) ∨
+    ((rq (some 17)).stats.status = .MaxTime ∧ false = true) ∨
+    ((rq (some 17)).stats.status = .MaxIter ∧ (rq (some 17)).stats.iterations = prq.maxIter) ∨
+    ((rq (some 17)).stats.status = .NotFinite ∧ RealLike.isFinite (rq (some 17)).stats.eps = false) :=
+  pantr_interrupted_or_natural coq Pq dirq 0 prq (stopAt (some 17))
+    (by intro a b hab h; simp only [stopAt, decide_eq_true_eq] at h ⊢; omega) 17 (by decide)
+    false [4] [5] [2] [7] [0] _ rfl (by decide +kernel)
+
+/-- the example with criterion `ProjGradUnitNorm` (one prox evaluation per head, `∇ψ(x̂)` evaluated by
+    `compute_FBS_step`), `compute_ratio_using_new_stepsize` and a provider whose every proposal is
+    rejected -/
+def prT : Params ℚ :=
+  { prq with stopCrit := .ProjGradUnitNorm, computeRatioUsingNewStepsize := true, maxIter := 3 }
+def rT (t0 : Option Nat) : Result ℚ Nat := run coq Pq dirq 1 prT (stopAt t0) false [4] [5] [2] [7] [0]
+
+/-- **The bound `t₀ + 13` is attained**: the first head polls the flag at tick 6; a request visible
+    from tick 7 on is followed by the whole iteration `k = 0` (12 events), the next head's prox
+    evaluation and the final callback — 20 events in all; in iteration `k = 1` (head poll at tick 19,
+    request visible from tick 20): 31 = 20 + 11. -/
+example : (rT (some 6)).ticks = 7 ∧ (rT (some 7)).ticks = 7 + 13 ∧ (rT (some 7)).stats.iterations = 1 ∧
+    (rT (some 7)).stats.status = .Interrupted ∧ (rT (some 19)).ticks = 20 ∧
+    (rT (some 20)).ticks = 20 + 11 ∧ (rT (some 20)).stats.iterations = 2 := by decide +kernel
+example : (rT (some 7)).ticks ≤ max 7 (7 + 13) :=
+  pantr_ticks_after_stop_tight coq (by norm_num [coq]) Pq dirq 1 prT (stopAt (some 7))
+    (by intro a b hab h; simp only [stopAt, decide_eq_true_eq] at h ⊢; omega) 7 (by decide)
+    false [4] [5] [2] [7] [0]
+
+end examplesQ
 
 end Alpaqa.Props.C19_Pantr
